@@ -803,6 +803,65 @@ def r5_defined_on_the_box(ctx):
     ctx.floor("scalar divisions in shipped models", n, 5)
 
 
+def r6_parameters_used_as_given(ctx):
+    """a scalar parameter is not clamped to a range narrower than its
+    declared bounds before it enters the formula: `p = max(p, c)` with
+    c above the declared minimum (or `min(p, c)` below the declared
+    maximum, or np.clip likewise) replaces in-bounds values, for which the
+    model then evaluates the documented formula at another parameter"""
+    n = 0
+    for mod in facts.model_modules(ctx.repo):
+        fn = facts.model_func(mod)
+        box = _param_box(mod)
+        params = [a.arg for a in fn.args.args][1:]
+        ctx.analysed(fn)
+        n += len(params)
+        for st in walk_no_nested(fn, False):
+            if not (isinstance(st, ast.Assign) and len(st.targets) == 1
+                    and isinstance(st.targets[0], ast.Name)
+                    and isinstance(st.value, ast.Call)):
+                continue
+            c = st.value
+            short = (dotted(c.func) or "").split(".")[-1]
+            if short not in ("max", "min", "maximum", "minimum", "clip",
+                             "fmax", "fmin"):
+                continue
+            ps = [a.id for a in c.args if isinstance(a, ast.Name)
+                  and a.id in params]
+            if len(ps) != 1 or st.targets[0].id != ps[0]:
+                continue
+            lo, hi = box.get(ps[0], (-_INF, _INF))
+            consts = []
+            for a in c.args:
+                if isinstance(a, ast.Name) and a.id == ps[0]:
+                    consts.append(None)
+                    continue
+                try:
+                    consts.append(float(literal(a)))
+                except Exception:
+                    consts = None
+                    break
+            if not consts:
+                continue
+            floor_ = ceil_ = None
+            if short in ("max", "maximum", "fmax"):
+                floor_ = max(x for x in consts if x is not None)
+            elif short in ("min", "minimum", "fmin"):
+                ceil_ = min(x for x in consts if x is not None)
+            elif len(consts) == 3 and consts[0] is None:
+                floor_, ceil_ = consts[1], consts[2]
+            active = (floor_ is not None and floor_ > lo) or \
+                (ceil_ is not None and ceil_ < hi)
+            ctx.check(not active, st,
+                      f"{mod.name}: `{norm(st)[:50]}` inside the bounds "
+                      f"[{lo}, {hi}] of {ps[0]}",
+                      f"{mod.relpath}: `{norm(st)[:60]}` replaces values of "
+                      f"'{ps[0]}' inside its declared bounds [{lo}, {hi}]: "
+                      "for those the model evaluates the documented formula "
+                      "at a different parameter value")
+    ctx.floor("scalar model parameters examined", n, 20)
+
+
 RULES = [
     ("C02-R1", "contact branch equals the documented formula exactly",
      r1_formula_agreement),
@@ -816,4 +875,6 @@ RULES = [
      "function", r4_registry_wrappers),
     ("C02-R5", "scalar prefactors are defined for every parameter vector "
      "inside the declared bounds", r5_defined_on_the_box),
+    ("C02-R6", "no scalar parameter is clamped to a range narrower than "
+     "its declared bounds before the formula", r6_parameters_used_as_given),
 ]
